@@ -22,5 +22,6 @@ def units(tier):
     return [
         H("C11", M, "check_step", t, F, "counts (a,file)<=2 (a:b,file)<=1 (a,folder)<=1; request cmd x name x type symbolic"),
         H("C11", M, "check_seq", t, F, "<=3 requests over {REGISTER,UNREGISTER,MAYBE_UNLINK} x 2 names x 2 types"),
+        H("C11", M, "check_failing_cleanup", t, F, "one name whose destruction fails at the zeroing request (or not) + <=3 further requests on it + 0..2 other resources at end-of-life; warnings raising (-W error inherited) or not"),
         H("C11", M, "check_raw", t, F, "9 malformed/odd raw lines (empty, missing fields, undecodable, truncated at EOF, padded, CRLF) after 0..2 registrations"),
     ]
